@@ -356,10 +356,11 @@ function spTA(id,eff,mkres){return function(a0,a1,a2){L.push("s"+id);var n=0;if(
 function spBuf(id,eff,mkres){return function(n){L.push("s"+id,n);if(eff)eff();return mkres(n)}}
 function regB(i,b){B[i]=b;try{P[i]=new Uint8Array(b)}catch(e){P[i]=null}}
 function chk(){var out=[];for(var i=0;i<B.length;i++){var p=P[i];if(!B[i]||!p){out.push(-1,"");continue}out.push(p.length,String.fromCharCode.apply(null,p))}return out}
-function geo(){var out=[];for(var i=0;i<V.length;i++){var v=V[i];if(!v){out.push(-1,-1,-1);continue}out.push(v.length,v.byteOffset,v.byteLength)}return out}
+function geo(){var out=[];for(var i=0;i<V.length;i++){var v=V[i];if(!v){out.push(-1,-1,-1,-1);continue}out.push(v.length,v.byteOffset,v.byteLength,B.indexOf(v.buffer))}return out}
 function iter(v,kind,at,eff,limit){var it=kind==="sym"?v[Symbol.iterator]():v[kind]();var out=[];for(var i=0;i<limit;i++){if(i===at&&eff)eff();var r=it.next();if(r.done){out.push("done");break}out.push(r.value)}return out}
 function gopd(v,k){var d=Object.getOwnPropertyDescriptor(v,k);return d===undefined?undefined:[d.value,d.writable,d.enumerable,d.configurable]}
 function nkeys(v){var ks=Reflect.ownKeys(v),n=0;for(var i=0;i<ks.length;i++){if(typeof ks[i]==="string"&&String(ks[i]>>>0)===ks[i])n++}return n}
+function cctor(id,k){return function(n){L.push("o"+id,n);return V[k]||{}}}
 function setCtor(o,c){Object.defineProperty(o,"constructor",{value:c,writable:true,configurable:true,enumerable:false})}
 `
 
@@ -430,6 +431,10 @@ func (c *jsCtx) js(op *Op) string {
 		return fmt.Sprintf("new %s(B[%d]%s)", tname(op.T), op.V, prefixComma(a))
 	case "of":
 		return fmt.Sprintf("%s.of(%s)", tname(op.T), a)
+	case "ofC":
+		return fmt.Sprintf("Uint8Array.of.call(cctor(%d,%d)%s)", op.N, op.V, prefixComma(a))
+	case "fromC":
+		return fmt.Sprintf("Uint8Array.from.call(cctor(%d,%d)%s)", op.N, op.V, prefixComma(a))
 	case "fromHex":
 		return fmt.Sprintf("Uint8Array.fromHex(%s)", a)
 	case "setCtor":
